@@ -679,7 +679,7 @@ func c09LoadReplay(t *testing.T) *c09Case {
 
 func c09Replay(t *testing.T, cs *c09Case) *c09m {
 	c := newC09(t, cs.Short)
-	t.Cleanup(c.close)
+	defer c.close()
 	for _, op := range cs.Ops {
 		op.Code, op.Note = 0, ""
 		c.apply(op)
@@ -693,9 +693,8 @@ func c09Replay(t *testing.T, cs *c09Case) *c09m {
 // TestVerifProbe_F07: a job-driven sync that was superseded by an HTTP start
 // still tombstones at its completion (the job path carries no sync identity).
 func TestVerifProbe_F07(t *testing.T) {
-	defer kit.CleanupScratch()
 	c := newC09(t, false)
-	t.Cleanup(c.close)
+	t.Cleanup(func() { c.close(); kit.CleanupScratch() })
 	a := c.h.P[0]
 	e := func(i int, v string) *kit.Ent {
 		return ent(fmt.Sprintf("%s:e%d", a, i), map[string]any{a + ":p0": v}, nil, false)
@@ -714,9 +713,8 @@ func TestVerifProbe_F07(t *testing.T) {
 // resets the state of the NEXT job-driven sync, whose completion then
 // tombstones entities that sync wrote.
 func TestVerifProbe_F07b(t *testing.T) {
-	defer kit.CleanupScratch()
 	c := newC09(t, true)
-	t.Cleanup(c.close)
+	t.Cleanup(func() { c.close(); kit.CleanupScratch() })
 	a := c.h.P[0]
 	e := func(i int, v string) *kit.Ent {
 		return ent(fmt.Sprintf("%s:e%d", a, i), map[string]any{a + ":p0": v}, nil, false)
